@@ -17,10 +17,12 @@ import (
 )
 
 type target struct {
-	fn  *ssa.Function
-	ct  *Contract
-	key string
-	why string
+	fn        *ssa.Function
+	ct        *Contract
+	key       string
+	why       string
+	selfIface types.Type // implementer mode: the interface whose method contract is being checked
+	extra     func(vc *VC, te *TEnv, final *State, results []Val, retReach string)
 }
 
 type KnownFinding struct {
@@ -172,6 +174,33 @@ func (e *Engine) implementers(key string) []*ssa.Function {
 	return out
 }
 
+// ifaceOfKey resolves the (possibly instantiated) interface type named in an interface-method key.
+func (e *Engine) ifaceOfKey(key string) types.Type {
+	i := strings.LastIndex(key, ").")
+	if !strings.HasPrefix(key, "(") || i < 0 {
+		return nil
+	}
+	tname := key[1:i]
+	if j := strings.Index(tname, "["); j >= 0 {
+		if inst := e.instIfaces[tname]; inst != nil {
+			return inst
+		}
+		tname = tname[:j]
+	}
+	dot := strings.LastIndex(tname, ".")
+	if dot < 0 {
+		return nil
+	}
+	for _, p := range e.prog.AllPackages() {
+		if p.Pkg.Path() == tname[:dot] {
+			if obj, ok := p.Pkg.Scope().Lookup(tname[dot+1:]).(*types.TypeName); ok {
+				return obj.Type()
+			}
+		}
+	}
+	return nil
+}
+
 func (e *Engine) implementsNamed(recv types.Type, iface *types.Named, targs string) bool {
 	if iface.TypeParams().Len() == 0 {
 		return types.Implements(recv, iface.Underlying().(*types.Interface))
@@ -211,7 +240,7 @@ func (cr *checkRun) collectTargets() {
 		}
 		impls := e.implementers(k)
 		for _, fn := range impls {
-			cr.targets = append(cr.targets, target{fn: fn, ct: ct, key: k, why: "implements " + strings.ReplaceAll(k, repoMod+"/", "")})
+			cr.targets = append(cr.targets, target{fn: fn, ct: ct, key: k, why: "implements " + strings.ReplaceAll(k, repoMod+"/", ""), selfIface: e.ifaceOfKey(k)})
 		}
 		if len(impls) == 0 {
 			cr.notes = append(cr.notes, "STALE-CONTRACT: no function or implementer found for "+k+" ("+ct.Src+")")
@@ -276,7 +305,9 @@ func runCheck(repo, verifDir, prop, tier string) int {
 	}
 	for _, t := range cr.targets {
 		ct := t.ct
-		vc := e.verifyFunc(t.fn, ct, cr.slice, cr.safety, nil)
+		e.selfIface = t.selfIface
+		vc := e.verifyFunc(t.fn, ct, cr.slice, cr.safety, t.extra)
+		e.selfIface = nil
 		vc.discharge(SolveOpts{Dir: qdir, Timeouts: timeouts, Parallel: 16, Seed: seed}, cr.tally)
 		cr.vcs = append(cr.vcs, vc)
 	}
